@@ -43,7 +43,8 @@ def polynomial_fitting(
         at the input point of the fitted function (can be accessed with :attr:`.value`).
     """
 
-    if order > len(list(x_data)) - 1:
+    # distinct points: repeated x values do not determine further coefficients
+    if order > len(set(x_data)) - 1:
         raise ValueError(
             "The order cannot be larger than the number of len(x_data) -1. "
         )
